@@ -302,7 +302,7 @@ where
         if same_tokens {
             cx.viol("write_grammar", detail.set("what", "separators differ: one space inside the last dimension, D-pos-1 newlines between blocks, no trailing separator"));
         } else {
-            cx.viol_sig(format!("write_element:D{}:{}", D, ty), detail.set("what", "an element is not rendered as its decimal / literal token"));
+            cx.viol_sig(format!("write_element:D{}:{}", D, ty), detail.set("what", "the written tokens are not the row-major elements in decimal / literal form"));
         }
     }
     let mut reader = reader_over(&written);
@@ -870,7 +870,7 @@ fn main() {
     // sharded, big shapes first (load balance).
     let prod = |s: &Vec<usize>| s.iter().product::<usize>();
     let (mut small, mut shapes): (Vec<Vec<usize>>, Vec<Vec<usize>>) = shapes.into_iter().partition(|s| prod(s) <= 6);
-    small.sort_by_key(|s| (prod(s) != 6, prod(s), s.clone()));
+    small.sort_by_key(|s| (prod(s) != 6, prod(s), s.len(), s.clone()));
     let first = common::run_big_stack(|| {
         let mut rep = Report::new();
         rep.sample_cap = 8;
